@@ -34,6 +34,8 @@ def run(res):
             for k, v in parse_kv(l).items(): stats[k] = stats.get(k, 0) + int(v)
         elif l.startswith("BAD"): bads.append(l)
         elif l.startswith("SAMPLE") and len(samples) < 8: samples.append(l[7:])
+    if tot.get("noncanonical_inputs", 0) * 200 > max(1, tot.get("records", 0)):
+        bads.append("BAD parser-model-disagrees-with-full_moon-on-%d-inputs E - - - 0 # -" % tot["noncanonical_inputs"])
     tie_ok = not errs and not bads and tot.get("records", 0) > 0 and tot.get("records") == stats.get("records")
     if t_ok and proof["ok"]:
         res.coverage["discharged"] = proof["discharged"] + 1 + (1 if tie_ok else 0)
